@@ -73,7 +73,7 @@ UNKNOWN_SCOPE = {
     "C17_solution": ["r_solve", "S.r_solve"], "C17_Decades": ["decades"],
     "C17_LinearDiff": ["Mdiff", "Lin.Mdiff2", "Lin.Mdiff12"], "C17_LinearConv": ["Mconv", "Lin.Mconv2", "Lin.Mconv12"],
     "C17_LinearUp": ["Mupalt", "Lin.Mup2", "Lin.Mup12"], "C17_LinearSrc": ["Msrc", "Lin.Msrc2", "Lin.Msrc12"],
-    "C17_tvd": ["tvdnamed", "S.tvdnamed"],
+    "C17_tvd": ["tvdnamed", "S.tvdnamed"], "C17_LinearTvd": ["tvdnamed", "Lin.tvd2", "Lin.tvd12"],
 }
 for _o in ("Mdiff", "Mconv", "Mup", "Mupalt", "Msrc", "Rsrc", "Mbc", "Rbc", "ghost", "divu", "volume", "linmean",
            "upmean", "grad"):
@@ -86,6 +86,9 @@ TARGETED = {
     "C12_HistoryPeriodic": ["r_history_per"], "C12_FixedPoint": ["r_fixed"],
     "C12_ExplicitUsable": ["r_after_explicit"], "C04_ExternalSolver": ["r_ext"],
     "C07_Premise": ["divu"], "C06_Steady": ["steady"],
+    # later integrals are compared with the first one, the integral of the small-rational initial data (always
+    # liftable, else the sequence is dropped): an unliftable later value differs from it
+    "C01_ClosedStepCentral": ["integrals"], "C01_ClosedStepUpwind": ["integrals"], "C01_ClosedStepExplicit": ["integrals"],
 }
 
 
